@@ -8,7 +8,10 @@
    [poll g cl st r cr dc now f host fwd] - the answer of router r to a
        device-code token request with credentials cr for device code dc at time
        now (ns), arriving under Host host / Forwarded host fwd; f = an injected
-       failure of GetDeviceAuthorizatonState (FDeadline = time-out). A token
+       failure of GetDeviceAuthorizatonState: FFail e with e the error value the
+       storage returned, as a chain of wrappers (fmt.Errorf %w, *oidc.Error with
+       Parent) down to a leaf; is_deadline e = errors.Is(e, context.DeadlineExceeded),
+       i.e. the cause is the time-out, whatever wraps it. A token
        answer [RTokens t] is projected to t_sub (subject of the access token),
        t_client (the client the access token is recorded for), t_scopes (scope of
        the answer), t_granted (scopes recorded with the access token), t_id
@@ -90,7 +93,7 @@ Theorem C16_poll_answers : forall g cl tr st, reach g cl tr st ->
   find_client cl (claimed cr) = Some c -> canonical c cr = true -> c_dev c = true ->
   client_ok c = true -> dc <> "" ->
   let x := poll g cl st r cr dc now f host fwd in
-  (f = FDeadline -> x = RErr "slow_down") /\
+  (forall e, f = FFail e -> is_deadline e = true -> x = RErr "slow_down") /\
   (f = FNone ->
      ((forall uc cid sc ex, issued_ev tr dc uc cid sc ex -> cid <> c_id c) ->
         x = RErr "access_denied") /\
